@@ -177,7 +177,7 @@ pub fn run(ctx: &Ctx) -> Report {
     pt_run(
         ctx,
         "c15d",
-        ctx.n(600, 6000),
+        ctx.n(600, 30000),
         || (0u32..=max_bits, 0u32..=15, any::<u64>()).prop_map(|(n_bits, spacing, seed)| Case::Diluted { n_bits, spacing, seed }),
         check,
         &mut rep,
@@ -203,7 +203,7 @@ pub fn run(ctx: &Ctx) -> Report {
     pt_run(
         ctx,
         "c15m",
-        ctx.n(8000, 150000),
+        ctx.n(8000, 1500000),
         || {
             (0u32..=60, proptest::collection::vec(0u8..40, 0..4), any::<u64>(), any::<bool>(), any::<u64>())
                 .prop_map(|(cells, headers, pad, big_column, seed)| Case::Memory { cells, headers, pad, big_column, seed })
